@@ -6,7 +6,7 @@ from ..model import UNKNOWN, ClassRef, FuncRef, ClassInfo, norm, walk_no_nested
 from ..layout import LayoutEngine
 from ..resolve import Resolver
 from ..escape import Escape, rule_entry, justified_table, enclosing_if
-from ..rules import canon_guard, raising_guards
+from ..rules import canon_guard, raising_guards, canon_text, equiv, equiv_folded
 from ..interp import Interp
 from .. import common, spec, flow
 from . import c08
@@ -46,7 +46,12 @@ def guards_with_class(fi, repo, noreturn=()):
     return out
 
 
+def has(texts, t):
+    return canon_text(t) in texts
+
+
 def expect(r, key, fi, guards, accepted, errcls, what, measure=None):
+    accepted = [canon_text(a) for a in accepted]
     for g, cls, n in guards:
         if g in accepted:
             if cls == errcls:
@@ -128,7 +133,7 @@ def rule_tx(ctx, repo):
     # MoneyRange
     mr = repo.get_function(CORE + 'MoneyRange')
     rets = [canon_guard(n.value, repo, mr.module) for n in walk_no_nested(mr.node) if isinstance(n, ast.Return)]
-    r.check(rets == ['nValue > -1 and nValue < params.MAX_MONEY + 1'] or rets == ['nValue > -1 and nValue <= params.MAX_MONEY'], 'MoneyRange', mr.site, '0 <= v <= MAX_MONEY', 'MoneyRange returns %s' % rets)
+    r.check(rets == [canon_text('nValue > -1 and nValue <= params.MAX_MONEY')], 'MoneyRange', mr.site, '0 <= v <= MAX_MONEY', 'MoneyRange returns %s' % rets)
     dflt = [norm(n) for n in walk_no_nested(mr.node) if isinstance(n, ast.If)]
     r.check(any('params = coreparams' in d for d in dflt) and mr.defaults().get('params') is not None and norm(mr.defaults()['params']) == 'None', 'MoneyRange:call-time', mr.site,
             'defaults to the selected chain at call time', 'MoneyRange does not take the selected chain at call time')
@@ -188,12 +193,12 @@ def rule_block(ctx, repo):
         return
     mg = [(canon_guard(n.test, repo, fi.module), n) for n in ast.walk(mk[0]) if isinstance(n, ast.If) and n is not mk[0]]
     texts = [g for g, n in mg]
-    r.check('%s.hashMerkleRoot != %s.calc_merkle_root()' % (blk, blk) in texts, 'merkle-root', common.site_of(fi, mk[0]), 'declared root must equal the computed root', 'merkle comparison missing: %s' % texts)
-    r.check('len(%s.vWitnessMerkleTree)' % blk in texts, 'witness-section', common.site_of(fi, mk[0]), 'commitment checked whenever any witness data is present', 'no `if len(block.vWitnessMerkleTree):` section')
+    r.check(has(texts, '%s.hashMerkleRoot != %s.calc_merkle_root()' % (blk, blk)), 'merkle-root', common.site_of(fi, mk[0]), 'declared root must equal the computed root', 'merkle comparison missing: %s' % texts)
+    r.check(has(texts, 'len(%s.vWitnessMerkleTree)' % blk), 'witness-section', common.site_of(fi, mk[0]), 'commitment checked whenever any witness data is present', 'no `if len(block.vWitnessMerkleTree):` section')
     want_w = ['commit != Hash(root + nonce)']
-    r.check(all(w in texts for w in want_w), 'witness-commitment', common.site_of(fi, mk[0]), 'commitment == SHA256d(witness root || nonce)', 'commitment comparison is missing: %s' % texts)
+    r.check(all(has(texts, w) for w in want_w), 'witness-commitment', common.site_of(fi, mk[0]), 'commitment == SHA256d(witness root || nonce)', 'commitment comparison is missing: %s' % texts)
     nonce_rules = [g for g in texts if 'coinbase_wit' in g or 'nonce' in g]
-    ok = any('len(coinbase_wit) < 1' in g and 'stack) != 1' in g for g in nonce_rules) and 'len(nonce) != 32' in texts
+    ok = any('len(coinbase_wit) < 1' in g and 'stack) != 1' in g for g in nonce_rules) and has(texts, 'len(nonce) != 32')
     r.check(ok, 'witness-nonce', common.site_of(fi, mk[0]), 'coinbase witness is exactly one 32-byte item', 'coinbase witness nonce rules are %s' % nonce_rules)
     root = [norm(s.value) for s in ast.walk(mk[0]) if isinstance(s, ast.Assign) and norm(s.targets[0]) == 'root']
     commit = [norm(s.value) for s in ast.walk(mk[0]) if isinstance(s, ast.Assign) and norm(s.targets[0]) == 'commit']
@@ -333,7 +338,7 @@ def rule_escape(ctx, repo, eng):
                  and any(isinstance(c, ast.Call) and norm(c.func) == '%s.calc_merkle_root' % blk for c in ast.walk(st.test if isinstance(st, ast.If) else st))]
         ok = bool(calls) and all('nonempty' in (mf.at.get(id(st)) or ()) for st in calls)
         g = enclosing_if(e.node)
-        ok = ok and g is not None and canon_guard(g.test, repo, e.fi.module) in ('not len(self.vtx)', 'len(self.vtx) == 0', 'not self.vtx')
+        ok = ok and g is not None and canon_guard(g.test, repo, e.fi.module) in (canon_text('not len(self.vtx)'), 'not self.vtx')
         return ok, 'every call from CheckBlock is dominated by the raising guard `not block.vtx`'
     just[('bitcoin.core.CBlock.calc_merkle_root', "ValueError('Block contains no transactions')")] = merkle_nonempty
     for n in ('CheckTransaction', 'CheckBlock', 'CheckBlockHeader', 'CheckProofOfWork'):
